@@ -16,6 +16,7 @@ import (
 	"github.com/yaricom/goNEAT/v4/neat"
 	"github.com/yaricom/goNEAT/v4/neat/genetics"
 	neatmath "github.com/yaricom/goNEAT/v4/neat/math"
+	"github.com/yaricom/goNEAT/v4/neat/network"
 )
 
 // The epoch driver (DESIGN.md 6.1 (b)): a population is constructed (NewPopulation / NewPopulationRandom /
@@ -191,6 +192,10 @@ func construct(sc scenario, opts *neat.Options, rec *epochRec) (*genetics.Popula
 		g := richStart()
 		p, err := genetics.NewPopulation(g, opts)
 		return p, g, "NewPopulation", err
+	case "modular":
+		g := modularStart()
+		p, err := genetics.NewPopulation(g, opts)
+		return p, g, "NewPopulation", err
 	case "read":
 		// a population evolved for a few epochs, written and read back
 		g := richStart()
@@ -326,4 +331,45 @@ func recordEpochs(args []string) int {
 	rep := &vhu.Report{Command: "record-epochs", Evaluations: rec.stats["epochs"], Cases: len(scs),
 		Extra: map[string]interface{}{"stats": rec.stats, "events": rec.lines}}
 	return rep.Write(*repf)
+}
+
+// modularStart is richStart plus two modules (MIMO control genes) chained through hidden IO nodes; used by the
+// determinism scenarios (the parallel executor's wire format has no syntax for modules).
+func modularStart() *genetics.Genome {
+	g := richStart()
+	tr := g.Traits
+	var io []*network.NNode
+	for id := 8; id <= 11; id++ {
+		n := network.NewNNode(id, network.HiddenNeuron)
+		n.ActivationType = neatmath.LinearActivation
+		n.Trait = tr[0]
+		io = append(io, n)
+	}
+	nodes := append(append([]*network.NNode{}, g.Nodes...), io...)
+	byId := map[int]*network.NNode{}
+	for _, n := range nodes {
+		byId[n.Id] = n
+	}
+	genes := append([]*genetics.Gene{}, g.Genes...)
+	genes = append(genes,
+		genetics.NewGeneWithTrait(tr[0], 1.5, byId[1], byId[8], false, 8, 1.5),
+		genetics.NewGeneWithTrait(tr[1], 2.5, byId[2], byId[9], false, 9, 2.5),
+		genetics.NewGeneWithTrait(tr[2], 0.5, byId[10], byId[4], false, 10, 0.5),
+		genetics.NewGeneWithTrait(tr[0], -1.5, byId[11], byId[5], false, 11, -1.5))
+	mk := func(id int, act neatmath.NodeActivationType, ins, outs []int) *network.NNode {
+		c := network.NewNNode(id, network.HiddenNeuron)
+		c.ActivationType = act
+		for _, i := range ins {
+			c.Incoming = append(c.Incoming, network.NewLink(1.0, byId[i], c, false))
+		}
+		for _, o := range outs {
+			c.Outgoing = append(c.Outgoing, network.NewLink(1.0, c, byId[o], false))
+		}
+		return c
+	}
+	mods := []*genetics.MIMOControlGene{
+		genetics.NewMIMOGene(mk(12, neatmath.MultiplyModuleActivation, []int{8, 9}, []int{10}), 12, 5.5, true),
+		genetics.NewMIMOGene(mk(13, neatmath.MaxModuleActivation, []int{10}, []int{11}), 13, 6.5, true),
+	}
+	return genetics.NewModularGenome(1, tr, nodes, genes, mods)
 }
